@@ -21,6 +21,10 @@ CLAIMED = {
         text='Deductive proof over the real text of calc_single, StructLayout::new, padding_needed_for, stride, align_shift: every write to the layout tables satisfies the C17 clauses (alignment power of two <= 8, C struct offsets, array = len*stride, distinct/variant = underlying, ?ptr = ptr, tag after largest payload) for all types in the stated domain.',
         note='Trusted: global table modelled rely/guarantee (reads return what calc_single wrote), Intern canonicity, listed rewrites. Domain: language int/float widths, nested sizes <= 1 GiB. The host C compiler comparison is not part of the proof.',
         ref='DESIGN.md 5 (C17)'),
+    'C25': dict(
+        text='Deductive proof over the real text of LineIndex::line_col, Index<LineNr>::index and the Sub impls: for every text, every index built from it and every offset in it, line = number of newlines before the offset and column = offset - start of that line; no underflow, no out-of-bounds.',
+        note='Partial: LineIndex::new (iterator chain) is assumed to build the index (index_wf); TextSize modelled as u32; std partition_point contract assumed; the "file:line:col" rendering is not under contract.',
+        ref='DESIGN.md 5 (C25)'),
 }
 
 NOT_APPLICABLE = {
